@@ -31,7 +31,11 @@ SESSIONS = [("/d/f.txt", "a:x,w,q"), ("/d/f.txt", "a:x,x"), ("/d/f.txt", "a:x,w:
             ("/d/nofile", "a:y,w:out2,e:out2,r:out2,x"), ("/d/../x", "a:x,w,f:/d/f.txt,w,x"),
             ("/d", "w,a:x,w,x,Q"), ("/d/f.txt", "r,r:/d/nofile,w:/d/sub,w:/d/sub/n,x"),
             ("/d/f.txt", "f:/../outside.txt,w,e:/../outside.txt,r://abs,w:/d/../x,Q"), ("/d/f.txt", "q,w"),
-            ("/d/f.txt", "a:1,a:2,W,W:/d/f.txt,e,E,f,x")]
+            ("/d/f.txt", "a:1,a:2,W,W:/d/f.txt,e,E,f,x"),
+            # the user goes net-dead: save_ed_buffer writes where the master's get_save_file_name () says
+            ("/d/f.txt", "a:x,D:/d/dead"), ("/d/f.txt", "a:x,D:/../outside_dead"), ("/d/f.txt", "D://nonexistent-c15/abs"),
+            ("/d/nofile", "D:/d/sub/"), ("/d/f.txt", "a:x,w,D:/d/./dead"), ("/d/f.txt", "a:y,D:d/dead#1"), ("/d/f.txt", "D:/d/sub/.."),
+            ("/d/f.txt", "a:x,D:dead,w")]
 # RE-ENTRANT masters: valid_read / valid_write call a file efun themselves (consult an access list, log the request)
 # before they answer like <kind>
 POL_NEST = ["nested=[read_file,/a/a,allow]", "nested=[file_size,/d,allow]", "nested=[write_file,/aa,allow]",
@@ -437,7 +441,7 @@ class C15(Prop):
             mk("nest-2-%s" % pol[8:28], [pl(pol)] + ["fx %s %s %s" % (e, br(a), br(b)) for e in EFUN2
                                                      for a, b in [("/d/f.txt", "/d/new"), ("/d/f.txt", "/d/sub"), ("/d", "/a")]] +
                ["fx %s %s" % (e, br(p)) for e in EFUNS for p in PSAVE[:5]])
-            mk("nest-ed-%s" % pol[8:28], [pl(pol)] + ["es %s %s" % (br(f), c) for f, c in SESSIONS[:6]])
+            mk("nest-ed-%s" % pol[8:28], [pl(pol)] + ["es %s %s" % (br(f), c) for f, c in SESSIONS[:6] + SESSIONS[12:14]])
         for pol in POL_FULL + POL_FEW + ["ro", "wo", "raise", "odd=[neg]", "ABSENT"]:
             for e in EFUN1X:
                 mk("%s-%s" % (e, pol), [pl(pol)] + ["fx %s %s" % (e, br(p)) for p in GD1])
@@ -580,9 +584,11 @@ class C15(Prop):
                 for _ in range(6):
                     cs = []
                     for _ in range(rng.range(1, 8)):
-                        c = rng.choice(["a", "e", "E", "f", "r", "w", "W", "w", "x", "q", "Q", "w"])
+                        c = rng.choice(["a", "e", "E", "f", "r", "w", "W", "w", "x", "q", "Q", "w", "D"])
                         if c == "a":
                             cs.append("a:t%d" % rng.below(9))
+                        elif c == "D":
+                            cs.append("D:" + rng.choice(names + ["/../x", "//abs/x", "/d/..", "/d/dead", "/a/../b", "/d/sub/x"]))
                         elif c in ("x", "q", "Q") or rng.chance(1, 2):
                             cs.append(c)
                         elif rng.chance(1, 8):
